@@ -258,6 +258,7 @@ func vfDefaultMsgs(topics []string) map[string]vfMsgSpec {
 }
 
 func newVfGW(x *vfExec, cfg *vfGWCfg, msgs map[string]vfMsgSpec, extra ...Option) *vfGW {
+	vfCh.newExecution()
 	g := &vfGW{x: x, cfg: cfg, w: newVfWorld(), fakes: map[string]*vfFake{}, pcfg: map[string]vfPeerCfg{}, conn: map[string]bool{},
 		gated: map[string]bool{}, app: map[peer.ID]float64{}, topics: map[string]*Topic{}, subs: map[string][]*Subscription{},
 		relays: map[string][]RelayCancelFunc{}, msgs: msgs, t0: time.Now(), wire: map[string][]vfRecv{}, lpubErr: map[string]string{}, localID: map[string]string{}, valCalls: map[string]int{}, held: map[string]bool{}}
